@@ -54,6 +54,17 @@ def run(ck, rng, tier):
         if far:
             Y = Y + rng.choice((3e5, 3e6)) * Y.std(axis=0)
             ck.count("responses far from the origin")
+        if c in (8, 9):
+            # predictors with means below -1 (negative column sums larger than n) followed by a last predictor that is centred
+            # (column sum 0 to rounding, e.g. a -1/0/+1 design factor): the first column of [1 X]'[1 X] is (n, negative..., 0)
+            if m < 2:
+                m = 3; X, Y = gen(rng, n, m, ny, cond, noise)
+            X = X - X.mean(axis=0) + np.array([rng.uniform(-6, -2) for _ in range(m)])
+            X[:, m - 1] -= X[:, m - 1].mean()
+            Bc = np.array([[rng.gauss(0, 1) for _ in range(ny)] for _ in range(m)])
+            Y = X @ Bc + np.array([rng.uniform(-10, 10) for _ in range(ny)])
+            Y = Y + noise * (Y.std(axis=0) + 1e-9) * np.array([[rng.gauss(0, 1) for _ in range(ny)] for _ in range(n)])
+            ck.count("negative predictor means, centred last predictor")
         Xnew = np.array([[rng.gauss(0, 1) for _ in range(m)] for _ in range(3)])
         if c == 3 or (thorough and c % 20 == 9):
             # predictors in large units, responses in small ones (slopes of order 1e-12): every coefficient counts
